@@ -165,6 +165,9 @@ func (g *SchemaGen) stringInstance(s map[string]any, flip float64) string {
 			n = m + 1
 		}
 	}
+	if n > 40 {
+		n = 40
+	}
 	var b strings.Builder
 	for i := 0; i < n; i++ {
 		b.WriteString(runePool[g.R.Intn(len(runePool))])
